@@ -8,7 +8,7 @@ from .gen import einsum as GE, mapping as GM, affine as GA, cascade as GC
 CLASSES = ["plain", "shape", "occupancy", "flatten", "affine", "cascade", "spacetime", "metrics"]
 
 
-def make(cls, rnd):
+def make(cls, rnd, variant=None):
     """Returns (spec, mode, extents or None) or None if the generator gave up."""
     if cls == "plain":
         s, info = GE.gen_plain(rnd)
@@ -23,6 +23,15 @@ def make(cls, rnd):
             if s is not None:
                 return s, "plain", None
         return None
+    if cls == "affine2d":
+        for _ in range(40):
+            s, ext, info = GA.gen_affine(rnd, "S2")
+            if "both-dims-partitioned" in s.tags:
+                return s, "plain", ext
+        return None
+    if cls == "reread":
+        r = GC.gen_reread(rnd)
+        return (r, "plain", None) if r is not None else None
     if cls == "flatten3":
         return GM.gen_flatten3_discordant(rnd), "plain", None
     if cls == "double-flatten":
@@ -57,7 +66,7 @@ def make(cls, rnd):
         return r, "plain", getattr(r, "_extents", None)
     if cls == "metrics":
         from .gen import arch as GR
-        r = GR.gen_metrics(rnd)
+        r = GR.gen_metrics(rnd, force=variant)
         if r is None:
             return None
         return r, "metrics", getattr(r, "_extents", None)
@@ -78,7 +87,11 @@ def item(pid, seed, shard, i, classes=None):
     classes = classes or available_classes()
     rnd = random.Random("%s-corpus-%d-%d-%d" % (pid, seed, shard, i))
     cls = classes[i % len(classes)]
-    r = make(cls, rnd)
+    variant = None
+    if cls == "metrics":
+        from .checks import mcommon
+        variant = mcommon.VARIANTS[(i // len(classes) * 5 + shard * 7 + i) % len(mcommon.VARIANTS)]
+    r = make(cls, rnd, variant)
     if r is None:
         return None
     spec, mode, ext = r
